@@ -13,6 +13,8 @@ CONSTANTS
     MaxFaults = 1
     MaxCrashes = 1
     MaxReopens = 1
+    MaxFmtFail = 0
+    FmtFails = {}
     Ticks = {"same", "next"}
     RetryTicks = {"same"}
     Phantoms = {0}
